@@ -45,7 +45,306 @@ def mode_dispatch(cases):
 
 MODES = {"dispatch": mode_dispatch}
 
+
+# ----------------------------------------------------------------------------------------------
+# mode "inspect": everything observable about get_untrusted_types / loads / visualize on one archive
+import ast
+import builtins
+import contextlib
+import importlib
+import random
+import os
+
+CANARY_DIR = str(Path(__file__).resolve().parent / "canary")
+
+
+def exc_enum(e):
+    from skops.io.exceptions import UnsupportedTypeException, UntrustedTypesFoundException
+    if isinstance(e, UntrustedTypesFoundException):
+        msg = str(e)
+        try:
+            names = ast.literal_eval(msg[msg.index("["): msg.rindex("]") + 1])
+        except Exception:
+            names = ["?unparsable?"]
+        return "Untrusted:" + ",".join(names)
+    if isinstance(e, UnsupportedTypeException):
+        return "Unsupported"
+    if isinstance(e, TypeError):
+        s = str(e)
+        if "Can't find loader" in s:
+            m = s.split("Can't find loader ", 1)[1].split(" for type", 1)[0]
+            return "NoLoader:" + m
+        if "trusted must be a list of strings" in s:
+            return "TrustedTrue"
+        return "TypeError"
+    for cls, name in ((KeyError, "KeyError"), (RecursionError, "RecursionError"), (ValueError, "ValueError"),
+                      (AttributeError, "AttributeError"), (ImportError, "ImportError")):
+        if isinstance(e, cls):
+            return name
+    return "Other"
+
+
+def build_zip(schema, members):
+    buf = io.BytesIO()
+    with zipfile.ZipFile(buf, "w") as z:
+        z.writestr("schema.json", json.dumps(schema))
+        for n in members:
+            z.writestr(n, b"x")
+    return buf.getvalue()
+
+
+class Tracer:
+    """Wrap the name-resolution sites of skops.io from outside (no source hooks)."""
+
+    def __init__(self):
+        import operator
+        import skops.io  # noqa
+        from skops.io import _audit, _general, _numpy, _persist, _scipy, _sklearn, _utils, _visualize, _quantile_forest
+        from skops.io.old import _general_v0, _numpy_v0, _numpy_v1
+        self.events = []
+        self.imports = []
+        self.on = False
+        mods = [_audit, _general, _numpy, _persist, _scipy, _sklearn, _visualize, _quantile_forest, _general_v0, _numpy_v0, _numpy_v1]
+        tr = self
+
+        def wrap(orig):
+            def w(module, name, *a, **k):
+                if tr.on:
+                    tr.events.append(("R", module, name))
+                return orig(module, name, *a, **k)
+            return w
+        for m in mods:
+            for fn in ("gettype", "_import_obj"):
+                if fn in vars(m):
+                    setattr(m, fn, wrap(getattr(_utils, fn)))
+        orig_import_module = importlib.import_module
+
+        def import_module(name, package=None):
+            if tr.on:
+                tr.imports.append(name)
+            return orig_import_module(name, package)
+        importlib.import_module = import_module
+        real_getattr = builtins.getattr
+
+        def traced_getattr(obj, name, *default):
+            if tr.on:
+                if obj is operator:
+                    tr.events.append(("M", "operator", name))
+                else:
+                    import sys as _s
+                    f = _s._getframe(1)
+                    if f.f_code.co_name == "_construct":
+                        tr.events.append(("A", name))
+            return real_getattr(obj, name, *default)
+        _general.getattr = traced_getattr
+
+    @contextlib.contextmanager
+    def tracing(self):
+        self.events, self.imports = [], []
+        self.on = True
+        try:
+            yield self
+        finally:
+            self.on = False
+
+
+def fmt_short(v):
+    if isinstance(v, str):
+        return v
+    if v is None or isinstance(v, (bool, int, float)):
+        return str(v)
+    return "?"
+
+
+def canon_events(evs):
+    out = []
+    for e in evs:
+        if e[0] == "R":
+            if e[1] == "numpy.random":
+                out.append("M:numpy.random|*")
+            else:
+                out.append(f"R:{fmt_short(e[1])}|{fmt_short(e[2])}")
+        elif e[0] == "M":
+            out.append(f"M:{e[1]}|{fmt_short(e[2])}")
+        else:
+            out.append(f"A:{fmt_short(e[1])}")
+    return out
+
+
+def concretize_T(case, reported):
+    r = random.Random(case["tseed"])
+    spec = case["tspec"]
+    extra = ["verif_canary_pkg.Probe", "os.getcwd", "builtins.list", "x.y", "numpy.ndarray"]
+    if spec == "none":
+        return None
+    if spec == "empty":
+        return []
+    if spec == "reported":
+        return list(reported)
+    if spec == "subset":
+        return [n for n in reported if r.random() < 0.5]
+    if spec == "superset":
+        t = list(reported) + r.sample(extra, r.randint(1, 3))
+        r.shuffle(t)
+        return t + t[:1]
+    if spec == "misleading":
+        t = []
+        for n in reported:
+            k = r.random()
+            t.append(n[1:] if k < 0.3 else n + " " if k < 0.5 else n.replace(".", "", 1) if k < 0.7 else n.upper() if k < 0.8 else n)
+        return t
+    raise ValueError(spec)
+
+
+def outcome_of(fn):
+    import hashlib
+    from absval import fingerprint
+    try:
+        obj = fn()
+        return "returned:" + hashlib.sha256(fingerprint(obj).encode()).hexdigest()[:12]
+    except BaseException as e:  # noqa
+        if not isinstance(e, Exception):
+            return "BASEEXC:" + type(e).__name__
+        return "err:" + exc_enum(e)
+
+
+def entry_variants(sio, case, data, T, rec):
+    """The three entry points and the admissible spellings of T must agree (C03)."""
+    import collections
+    import numpy as np
+    import verif_canary_pkg
+    scratch = Path(case["scratch"])
+    scratch.mkdir(parents=True, exist_ok=True)
+    f = scratch / f"a{os.getpid()}.skops"
+    f.write_bytes(data)
+    pool = {"builtins.list": list, "builtins.dict": dict, "verif_canary_pkg.Probe": verif_canary_pkg.Probe,
+            "numpy.ndarray": np.ndarray, "collections.OrderedDict": collections.OrderedDict, "builtins.int": int}
+    r = random.Random(case["tseed"] + 1)
+    out = {}
+    try:
+        out["loads"] = outcome_of(lambda: sio.loads(data, trusted=T))
+        out["load_str"] = outcome_of(lambda: sio.load(str(f), trusted=T))
+        out["load_path"] = outcome_of(lambda: sio.load(f, trusted=T))
+        if T is not None:
+            out["tuple"] = outcome_of(lambda: sio.loads(data, trusted=tuple(T)))
+            sh = list(T) + list(T[:2])
+            r.shuffle(sh)
+            out["shuffled_dups"] = outcome_of(lambda: sio.loads(data, trusted=sh))
+            ty = [pool.get(n, n) for n in T]
+            out["type_objects"] = outcome_of(lambda: sio.loads(data, trusted=ty))
+            sup = list(T) + ["zz.unrelated", "os.getcwd"]
+            out["superset"] = outcome_of(lambda: sio.loads(data, trusted=sup))
+        out["true_loads"] = outcome_of(lambda: sio.loads(data, trusted=True))
+        out["true_load"] = outcome_of(lambda: sio.load(f, trusted=True))
+        try:
+            g = sio.get_untrusted_types(file=f)
+            out["gut_file"] = "ok:" + ",".join(g)
+            out["gut_sorted_unique"] = (g == sorted(set(g)))
+            g2 = sio.get_untrusted_types(file=str(f))
+            out["gut_file_str"] = "ok:" + ",".join(g2)
+        except Exception as e:
+            out["gut_file"] = out["gut_file_str"] = "err:" + exc_enum(e)
+            out["gut_sorted_unique"] = True
+    finally:
+        try:
+            f.unlink()
+        except OSError:
+            pass
+    return out
+
+
+def mode_inspect(cases):
+    import sys
+    sys.path.insert(0, CANARY_DIR)
+    builtins._verif_ledger = []
+    import skops.io as sio
+    tr = Tracer()
+    out = []
+    for case in cases:
+        data = build_zip(case["schema"], case["members"])
+        rec = {}
+        builtins._verif_ledger.clear()
+        # 1. get_untrusted_types (also: what get_tree resolves/imports while building)
+        with tr.tracing():
+            try:
+                gut = sio.get_untrusted_types(data=data)
+                rec["gut"] = "ok:" + ",".join(gut)
+            except RecursionError as e:
+                gut, rec["gut"] = [], "err:RecursionError"
+            except Exception as e:
+                gut, rec["gut"] = [], "err:" + exc_enum(e)
+        rec["init_events"] = canon_events(tr.events)
+        rec["init_imports"] = list(tr.imports)
+        rec["init_ledger"] = [list(x) for x in builtins._verif_ledger]
+        T = case["T"] if "T" in case else concretize_T(case, gut)
+        rec["T"] = T
+        # 2. loads
+        builtins._verif_ledger.clear()
+        with tr.tracing():
+            try:
+                obj = sio.loads(data, trusted=T)
+                rec["load"] = "returned"
+                rec["load_type"] = f"{type(obj).__module__}.{type(obj).__qualname__}"
+            except BaseException as e:  # noqa
+                if not isinstance(e, Exception):
+                    rec["load"] = "BASEEXC:" + type(e).__name__
+                else:
+                    rec["load"] = "err:" + exc_enum(e)
+                    rec["load_exc"] = type(e).__name__
+        rec["load_events"] = canon_events(tr.events)
+        rec["load_imports"] = list(tr.imports)
+        rec["load_ledger"] = [list(x) for x in builtins._verif_ledger]
+        if case.get("entry"):
+            rec["entry"] = entry_variants(sio, case, data, T, rec)
+        # 3. visualize, default sink, stdout captured
+        buf = io.StringIO()
+        try:
+            with contextlib.redirect_stdout(buf):
+                sio.visualize(data, trusted=T, show=case["show"])
+            rec["vis"] = "ok:" + buf.getvalue().rstrip("\n")
+        except Exception as e:
+            rec["vis"] = "err:" + exc_enum(e)
+        # 4. raw rows
+        rows = []
+        try:
+            sio.visualize(data, trusted=T, show=case["show"], sink=lambda nodes, show, **kw: rows.extend(nodes))
+            rec["rows"] = "ok:" + "\n".join(
+                f"{r.level}|{r.key}|{r.val}|{int(r.is_self_safe)}{int(r.is_safe)}{int(r.is_last)}" for r in rows)
+        except Exception as e:
+            rec["rows"] = "err:" + exc_enum(e)
+        out.append(rec)
+    return out
+
+
+def mode_resolve_table(pairs):
+    """What gettype(module, name) finds for the fixed pool of names the generator puts into LossNode
+    states -- computed with importlib directly, not through skops."""
+    import sys
+    sys.path.insert(0, CANARY_DIR)
+    out = {}
+    for m, c in pairs:
+        try:
+            mod = importlib.import_module(m)
+            out.setdefault(m, ["", ""])
+        except ImportError:
+            out[m + "." + c] = "EImport"
+            out[m] = "EImport"
+            continue
+        try:
+            obj = getattr(mod, c)
+            out[m + "." + c] = [getattr(obj, "__module__", None) or "__main__", obj.__name__]
+        except AttributeError:
+            out[m + "." + c] = "EAttr"
+    return out
+
+
+MODES["inspect"] = mode_inspect
+MODES["resolve_table"] = mode_resolve_table
+
+
 if __name__ == "__main__":
     req = json.load(sys.stdin)
+    real_stdout = sys.stdout
+    sys.stdout = sys.stderr          # nothing the implementation prints may corrupt the JSON reply
     res = MODES[req["mode"]](req["cases"])
-    json.dump(res, sys.stdout)
+    json.dump(res, real_stdout)
